@@ -18,6 +18,8 @@ def run(ctx, model_ok, deep=False):
     import ecframe
     ecframe.run(ctx, model_ok, deep)
     F.run_suites(ctx, model_ok, deep, [
+        ("programs", S.programs_suite, S.falsify_programs,
+         "110 (quick) / 1500 (thorough) random programs of 55-70 API calls over 3 checkers, 3 builders, every pool key (with/without alg attribute, private/public), callbacks, clocks and both providers; every answer compared with the model; 60% of the verifies and generates are asked of a fresh twin configured by the same calls first", False),
         ("verify-sig-openssl", lambda w, p, t, r: S.verify_sig(w, p, t, r, "openssl"), S.falsify_accept,
          "per key x admissible alg: valid token + header/payload char edits, segment swap, signature truncation/extension, every single-bit flip of the decoded signature, alt alphabet/padding, re-targeting to every other key/alg and to HMAC under public/empty key; distinct = distinct (answer, mutation class, key, alg)", False),
         ("verify-sig-gnutls", lambda w, p, t, r: S.verify_sig(w, p, t, r, "gnutls"), S.falsify_accept,
